@@ -448,7 +448,10 @@ Definition mask_name (pm : pmode) (has_vk : bool) (st : kstate) (kv : name * N) 
                     | Some _ => od_set kwo1 (set_def (Some (snd kv)) (set_kind KO p))
                     | None => kwo1 end in
         let src1 := match pm with Some _ => k_src st | None => src_pop (k_src st) x end in
-        let src2 := match k_va st with Some v => src_pop src1 (pname v) | None => src1 end in
+        let src2 := match k_va st with
+                    | Some v => if isSome (find_param (pname v) kwo2) then src1
+                                else src_pop src1 (pname v)
+                    | None => src1 end in
         Ok (mkK before None kwo2 src2 (x :: k_consumed st))
     | None =>
         match find_param x (k_kwo st) with
@@ -492,6 +495,11 @@ Definition mask_gen (s : sigT) (n : nat) (h : hideflags) (named : list (name * N
      else Ok (skipn n (posargs so), skipn (n - length (posargs so)) (pokargs so),
               names_of (firstn n allpos))) ;;
   let '(pos1, pok1, consumed) := c in
+  (* a consumed positional-only parameter cannot be named by a keyword: only the consumed
+     positional-or-keyword names make a later keyword of that name a duplicate *)
+  let bound :=
+    if h_args h then names_of (pokargs so)
+    else names_of (firstn (n - length (posargs so)) (pokargs so)) in
   let src1 := src_pop_all (ssrc so) consumed in
   let '(va1, src2) :=
     if h_args h || h_varargs h then
@@ -503,7 +511,7 @@ Definition mask_gen (s : sigT) (n : nat) (h : hideflags) (named : list (name * N
        src_pop_all (src_pop_all src2 (names_of pok1)) (names_of (kwoargs so)),
        @nil (name * N))
     else (pok1, kwoargs so, src2, named) in
-  do st <- mask_names pm (isSome (varkwargs so)) (mkK pok2 va1 kwo2 src3 consumed) named2 ;;
+  do st <- mask_names pm (isSome (varkwargs so)) (mkK pok2 va1 kwo2 src3 bound) named2 ;;
   let '(vk3, src4) :=
     if h_kwargs h || h_varkwargs h then
       (None, match varkwargs so with Some v => src_pop (k_src st) (pname v) | None => k_src st end)
